@@ -479,7 +479,7 @@ class C19(Engine):
 		'resolved instances (one per binding generation, attributable through creation serials), the filled leading parameters and can_resolve of every handle are compared with the reference model. '
 		'distinct_nontrivial = distinct (op-kind trigram, handle relation {new, clone-of, combined-from}) pairs reached')
 	quick_runs = 200000
-	thorough_runs = 1500000
+	thorough_runs = 4000000
 	quick_budget_s = 90.0
 	thorough_budget_s = 1500.0
 	components_real = ['DI', 'LazyDI', 'combine', '_clone', 'invoke / __assert_invoke', 'load_module_path (by-name definitions)', 'the production shape of di_container (Locator bound to the container itself)']
